@@ -404,7 +404,7 @@ func (s *Solver) CheckInc(pc []*Term, extra []*Term, evalTerms []*Term) (string,
 	s.solverTime += dt
 	s.queries++
 	if slowLog && dt > 500*time.Millisecond {
-		lastT := "?"
+		lastT := fmt.Sprintf("(%d terms)", len(live)+len(ex))
 		if len(ex) > 0 {
 			lastT = ex[len(ex)-1].str(3)
 		} else if len(live) > 0 {
